@@ -40,6 +40,7 @@ type c01Case struct {
 	PrefillTo int64
 	Steps     []step
 	Faults    []sw.Fault
+	Extra     int `json:",omitempty"` // index into sw.ExtraLines: further lines in every tree head
 }
 
 func genN(t *rapid.T, max int64) int64 {
@@ -125,6 +126,9 @@ func genCase(t *rapid.T) c01Case {
 		c.Faults = append(c.Faults, genFault(t))
 	}
 	c.Twins = gen.Chance(t, 40, "twins")
+	if gen.Chance(t, 20, "extralines") {
+		c.Extra = 1 + gen.Uniform(t, len(sw.ExtraLines)-1, "extra")
+	}
 	if gen.Chance(t, 4, "twinswap") {
 		// A lookup is answered, from the network or from the cache, with the genuine response for another module
 		// whose path ends in the requested path, at the same version: the requested "path version " prefix occurs
@@ -288,7 +292,7 @@ func check(c c01Case) pbt.Result {
 		r.Skip = true
 		return r
 	}
-	w := sw.New(sw.Config{H: c.H, NA: c.N, Fork: -1, Seed: int64(c.Seed), Twins: c.Twins})
+	w := sw.New(sw.Config{H: c.H, NA: c.N, Fork: -1, Seed: int64(c.Seed), Twins: c.Twins, Extra: c.Extra})
 	// 1. fault-free run: must succeed everywhere (clause d) and defines the resources faults bind to
 	ops0, res0 := run(c, w, nil, nil)
 	for i, x := range res0 {
